@@ -12,6 +12,7 @@ package main
 import (
 	"fmt"
 	"go/types"
+	"strings"
 
 	"golang.org/x/tools/go/ssa"
 )
@@ -21,10 +22,49 @@ func init() {
 	ghostSorts["G_consumed"] = "(Array Int Int)"
 	ghostSorts["G_lastSlice"] = "(Array Int Slice)"
 	ghostSorts["G_lastInt"] = "(Array Int Int)"
+	ghostSorts["G_lastScanOK"] = "(Array Int Bool)"
 	stdSpecs["encoding/binary.Write"] = specBinaryWrite
 	stdSpecs["encoding/binary.Read"] = specBinaryRead
 	stdSpecs["io.ReadFull"] = specReadFull
 	stdSpecs["sort.Strings"] = specSortStrings
+	ghostSorts["G_lines"] = "(Array Int Int)"
+	ghostSorts["G_scanErr"] = "(Array Int Int)"
+	stdSpecs["bufio.NewScanner"] = specNewScanner
+	stdSpecs["(*bufio.Scanner).Scan"] = specScan
+	stdSpecs["(*bufio.Scanner).Text"] = specScanText
+	stdSpecs["(*bufio.Scanner).Err"] = func(fr *frame, c *ssa.CallCommon, args []T, st *state, pos string) []T {
+		// Err() is a function of the scanner's state: stable between calls to Scan
+		fr.vc.regHeap("G_scanErr", "(Array Int Int)")
+		return []T{{fmt.Sprintf("(select %s %s)", fr.vc.heapGet(st, "G_scanErr"), args[0].S), "Int", c.Signature().Results().At(0).Type()}}
+	}
+	stdWrites["bufio.NewScanner"] = []string{"G_lines"}
+	stdWrites["(*bufio.Scanner).Scan"] = []string{"G_lines"}
+	stdSpecs["strconv.ParseInt"] = func(fr *frame, c *ssa.CallCommon, args []T, st *state, pos string) []T {
+		fr.vc.assumedStd["strconv.ParseInt/ParseFloat/Atoi: return some value or a non-nil error (err == nil => the value fits the requested bit size)"] = true
+		v := fr.freshOf("parse_v", types.Typ[types.Int64], st)
+		e := fr.freshOf("parse_err", c.Signature().Results().At(1).Type(), st)
+		// bitSize argument bounds the value
+		fr.vc.assume(st.reach, fmt.Sprintf("(=> (and (= %s 0) (= %s 32)) (and (<= (- 2147483648) %s) (<= %s 2147483647)))", e.S, args[2].S, v.S, v.S))
+		return []T{v, e}
+	}
+	stdSpecs["strconv.ParseFloat"] = func(fr *frame, c *ssa.CallCommon, args []T, st *state, pos string) []T {
+		fr.vc.assumedStd["strconv.ParseInt/ParseFloat/Atoi: return some value or a non-nil error (err == nil => the value fits the requested bit size)"] = true
+		return []T{fr.freshOf("parse_f", types.Typ[types.Float64], st), fr.freshOf("parse_err", c.Signature().Results().At(1).Type(), st)}
+	}
+	stdSpecs["strconv.Atoi"] = func(fr *frame, c *ssa.CallCommon, args []T, st *state, pos string) []T {
+		fr.vc.assumedStd["strconv.ParseInt/ParseFloat/Atoi: return some value or a non-nil error (err == nil => the value fits the requested bit size)"] = true
+		return []T{fr.freshOf("parse_i", types.Typ[types.Int], st), fr.freshOf("parse_err", c.Signature().Results().At(1).Type(), st)}
+	}
+	stdSpecs["strings.Fields"] = func(fr *frame, c *ssa.CallCommon, args []T, st *state, pos string) []T {
+		fr.vc.assumedStd["strings.Fields: returns a freshly allocated slice of tokens (any length)"] = true
+		r := fr.vc.alloc(st)
+		sl := fr.freshOf("fields", c.Signature().Results().At(0).Type(), st)
+		fr.vc.assume(st.reach, fmt.Sprintf("(and (= (s_arr %s) %s) (= (s_off %s) 0))", sl.S, r, sl.S))
+		return []T{sl}
+	}
+	mustUse["(*bufio.Scanner).Scan"] = 0
+	mustUse["io.ReadFull"] = 1
+	mustUse["encoding/binary.Read"] = 0
 	stdWrites["encoding/binary.Write"] = []string{"G_written", "G_lastSlice", "G_lastInt"}
 	stdWrites["encoding/binary.Read"] = []string{"G_consumed", "G_lastSlice", "G_lastInt"}
 	stdWrites["io.ReadFull"] = []string{"G_consumed"}
@@ -230,7 +270,7 @@ func specReadFull(fr *frame, c *ssa.CallCommon, args []T, st *state, pos string)
 	vc.declStream()
 	r := args[0]
 	buf := args[1]
-	vc.assumedStd["io.ReadFull(r, buf): err == nil => n == len(buf), buf holds the next len(buf) bytes of the stream and they existed; a stream with fewer bytes left yields err != nil"] = true
+	vc.assumedStd["io.ReadFull(r, buf): err == nil => n == len(buf), buf holds the next len(buf) bytes of the stream and they existed; a stream with fewer bytes left yields err != nil; err == io.EOF => n == 0"] = true
 	n := fr.freshOf("rf_n", types.Typ[types.Int], st)
 	err := fr.freshOf("rf_err", c.Signature().Results().At(1).Type(), st)
 	cur := vc.define("rf_cur", "Int", vc.ghostGet(st, "G_consumed", r.S))
@@ -241,6 +281,8 @@ func specReadFull(fr *frame, c *ssa.CallCommon, args []T, st *state, pos string)
 	vc.assume(st.reach, fmt.Sprintf("(and (<= 0 %s) (<= %s (s_len %s)) (<= (+ %s %s) (io.total %s)))", n.S, n.S, bs, cur, n.S, r.S))
 	vc.assume(st.reach, fmt.Sprintf("(=> (= %s 0) (= %s (s_len %s)))", err.S, n.S, bs))
 	vc.assume(st.reach, fmt.Sprintf("(=> (not (= %s 0)) (< %s (s_len %s)))", err.S, n.S, bs))
+	// io.EOF is returned only when no byte was read (a partial read reports io.ErrUnexpectedEOF)
+	vc.assume(st.reach, fmt.Sprintf("(=> (= %s %s) (= %s 0))", err.S, vc.P.strLit("globalerr:io.EOF"), n.S))
 	atj := vc.at("Int", hcur, bs, "j")
 	vc.assume(st.reach, fmt.Sprintf("(forall ((j Int)) (! (=> (and (<= 0 j) (< j %s)) (= %s (io.stream %s (+ %s j)))) :pattern (%s)))", n.S, atj, r.S, cur, atj))
 	vc.ghostSet(st, "G_consumed", r.S, fmt.Sprintf("(+ %s %s)", cur, n.S))
@@ -251,6 +293,20 @@ func specReadFull(fr *frame, c *ssa.CallCommon, args []T, st *state, pos string)
 func (fr *frame) ioInvoke(c *ssa.CallCommon, st *state, pos string) ([]T, bool) {
 	vc := fr.vc
 	name := c.Method.FullName()
+	if strings.HasPrefix(name, "(encoding/binary.ByteOrder).") {
+		var args []T
+		for _, a := range c.Args {
+			args = append(args, fr.val(a))
+		}
+		for _, w := range []int{2, 4, 8} {
+			if name == fmt.Sprintf("(encoding/binary.ByteOrder).Uint%d", w*8) {
+				return byteOrderRead(w)(fr, c, args, st, pos), true
+			}
+			if name == fmt.Sprintf("(encoding/binary.ByteOrder).PutUint%d", w*8) {
+				return byteOrderPut(w)(fr, c, args, st, pos), true
+			}
+		}
+	}
 	switch name {
 	case "(io.Writer).Write":
 		w := fr.val(c.Value)
@@ -282,6 +338,14 @@ func (fr *frame) ioInvoke(c *ssa.CallCommon, st *state, pos string) ([]T, bool) 
 }
 
 func ioInvokeWrites(c *ssa.CallCommon, vc *VC) (map[string]bool, bool) {
+	if n := c.Method.FullName(); strings.HasPrefix(n, "(encoding/binary.ByteOrder).") {
+		if strings.Contains(n, ").PutUint") {
+			return map[string]bool{vc.heapArr("Int"): true}, true
+		}
+		if strings.Contains(n, ").Uint") {
+			return map[string]bool{}, true
+		}
+	}
 	switch c.Method.FullName() {
 	case "(io.Writer).Write":
 		vc.regHeap("G_written", ghostSorts["G_written"])
@@ -314,4 +378,46 @@ func specSortStrings(fr *frame, c *ssa.CallCommon, args []T, st *state, pos stri
 	vc.assume(st.reach, fmt.Sprintf("(forall ((j Int)) (! (=> (and (<= 0 j) (< j (s_len %s))) (and (<= 0 (%s j)) (< (%s j) (s_len %s)) (= %s %s))) :pattern (%s)))",
 		x, inv, inv, x, ao, vc.at("Int", newH, x, fmt.Sprintf("(%s j)", inv)), ao))
 	return []T{}
+}
+
+// results of these library calls signal short input: ignoring them is an obligation failure (C14)
+var mustUse = map[string]int{}
+
+// bufio.Scanner over a finite input: lines(s) tokens remain; Scan() consumes one or reports the end.
+func specNewScanner(fr *frame, c *ssa.CallCommon, args []T, st *state, pos string) []T {
+	vc := fr.vc
+	vc.assumedStd["bufio.Scanner: a finite number of tokens remain (ghost lines(s) >= 0); Scan() == true consumes exactly one, Scan() == false means none was left (or an error); Text() after a failed Scan is the empty string"] = true
+	r := vc.alloc(st)
+	n := vc.declareConst("scan_lines", "Int")
+	vc.assume("true", fmt.Sprintf("(>= %s 0)", n))
+	vc.ghostSet(st, "G_lines", r, n)
+	return []T{{r, "Int", c.Signature().Results().At(0).Type()}}
+}
+
+func specScan(fr *frame, c *ssa.CallCommon, args []T, st *state, pos string) []T {
+	vc := fr.vc
+	s := args[0]
+	cur := vc.define("scan_cur", "Int", vc.ghostGet(st, "G_lines", s.S))
+	ok := fr.freshOf("scan_ok", types.Typ[types.Bool], st)
+	vc.assume(st.reach, fmt.Sprintf("(>= %s 0)", cur))
+	vc.assume(st.reach, fmt.Sprintf("(=> %s (>= %s 1))", ok.S, cur))
+	vc.ghostSet(st, "G_lines", s.S, fmt.Sprintf("(ite %s (- %s 1) %s)", ok.S, cur, cur))
+	// a failing Scan may record an error; a successful one leaves Err() as it was
+	vc.regHeap("G_scanErr", "(Array Int Int)")
+	ne := fr.freshOf("scan_err", types.Typ[types.Int], st)
+	vc.assume(st.reach, fmt.Sprintf("(>= %s 0)", ne.S))
+	eh := vc.heapGet(st, "G_scanErr")
+	vc.heapSet(st, "G_scanErr", fmt.Sprintf("(store %s %s (ite %s (select %s %s) %s))", eh, s.S, ok.S, eh, s.S, ne.S))
+	// remember the outcome for Text()
+	vc.regHeap("G_lastScanOK", "(Array Int Bool)")
+	vc.heapSet(st, "G_lastScanOK", fmt.Sprintf("(store %s %s %s)", vc.heapGet(st, "G_lastScanOK"), s.S, ok.S))
+	return []T{ok}
+}
+
+func specScanText(fr *frame, c *ssa.CallCommon, args []T, st *state, pos string) []T {
+	vc := fr.vc
+	vc.regHeap("G_lastScanOK", "(Array Int Bool)")
+	t := fr.freshOf("scan_text", types.Typ[types.String], st)
+	vc.assume(st.reach, fmt.Sprintf("(=> (not (select %s %s)) (= %s 0))", vc.heapGet(st, "G_lastScanOK"), args[0].S, t.S))
+	return []T{t}
 }
